@@ -50,6 +50,7 @@ pub fn run_property(ctx: &Ctx, rep: &mut Report) -> Result<(), String> {
         "C11" => props::c11::run(ctx, rep),
         "C12" => props::c12::run(ctx, rep),
         "C13" => props::c13::run(ctx, rep),
+        "C14" => props::c14::run(ctx, rep),
         "C16" => props::c16::run(ctx, rep),
         "C18" => props::c18::run(ctx, rep),
         "C19" => props::c19::run(ctx, rep),
@@ -76,6 +77,7 @@ pub fn replay_case(case: &Value, ctx: &Ctx) -> Result<Vec<Violation>, String> {
         "C11" => Ok(props::c11::replay(case)),
         "C12" => Ok(props::c12::replay(case)),
         "C13" => Ok(props::c13::replay(case)),
+        "C14" => Ok(props::c14::replay(case, ctx)),
         "C16" => Ok(props::c16::replay(case, ctx)),
         "C18" => Ok(props::c18::replay(case, ctx)),
         "C19" => Ok(props::c19::replay(case)),
